@@ -127,3 +127,18 @@ _stack("C18", "TestC18",
        "set-mode RW/ERR/WO/bogus; after every step controller.VerifState(): no duplicate address, <=RF entries, backends == list with equal modes, "
        "writers = non-ERR, readers = RW, index maps injective, <=1 WO, RWReplicaCount = #RW, detached nodes' logs frozen; non-trivial = >=1 "
        "successful add and a remove or set-mode", 40, 900)
+
+PLAN["C14"] = {
+    "level": "exploration",
+    "rule": ("request sequences (1-30 + 2 trailing well-formed) from the two route tables (controller REST, replica REST) with mutation classes: any method on any "
+             "path, known/unknown/missing action, valid / non-base64 / unknown / over-long ids, bodies valid, valid for another action, wrongly typed, "
+             "truncated, empty, non-JSON, null, array, 1 MiB; sent over HTTP to a child process holding the real controller + replicas in a generated "
+             "state (no replicas / started / degraded / one WO; extra replica initial / closed / open / rebuilding); after every request: child alive, "
+             "no handler panic (recording middleware), GET on both APIs answers 200, controller and every replica server lock obtainable within 10 s, "
+             "unroutable / unknown-action / malformed-body requests answered >= 400; non-trivial = a malformed request followed by a well-formed one"),
+    "assumptions": ["the API process is the test binary re-executed (VERIF_CHILD=apiserver) with the real routers, controller and replica servers; pprof routes are not requested",
+                    "the child plays the replica process's part of setting CloneStatus=NA after an open, as app/replica.go does"],
+    "technique": "grammar-based request generation (rapid) against a child process; liveness / lock / panic probes after every request",
+    "quick": {"wall": 150, "tests": [{"run": "TestC14", "shards": 16, "checks": 40, "timeout": 130, "shrink": "40s"}]},
+    "thorough": {"wall": 900, "tests": [{"run": "TestC14", "shards": 16, "checks": 1200, "timeout": 840, "shrink": "90s"}]},
+}
